@@ -1,6 +1,6 @@
 (* C14 — State export/import, Raft snapshots read offline, backup rotation, peerstore file round-trip.
    Statements only; every proof is `exact <lemma of Proofs/C14_*.v>`. *)
-From V Require Import Base.Common Model.C14_Backup Model.C14_Peerstore Model.C14_Check Proofs.C14_Backup Proofs.C14_Peerstore.
+From V Require Import Base.Common Model.C14_Backup Model.C14_Peerstore Model.C14_State Model.C14_Check Proofs.C14_Backup Proofs.C14_Peerstore Proofs.C14_State.
 From Coq Require Import Permutation.
 
 (* ---------------- backup rotation (data_helper.go makeBackup, raft.go CleanupRaft) ---------------- *)
@@ -103,3 +103,78 @@ Proof.
   split; [|reflexivity]. split; [repeat constructor; simpl; intuition discriminate|].
   intros pi [<-|[<-|[]]]; (split; [discriminate|split; [repeat constructor; unfold tr_key; simpl; lia|simpl; auto]]).
 Qed.
+
+(* ---------------- pinsets: Marshal/Unmarshal, snapshots read offline, export/import ---------------- *)
+(* (V.Model.C14_State: a pin is (cid, (content, #origins)); `ord` is the datastore's query order, any permutation) *)
+
+(* serialising then deserialising onto an empty store reproduces the pinset (onto a non-empty store: C01, S1) *)
+Theorem marshal_unmarshal_id ord s : order_oracle ord -> keys_nodup s -> same_pinset (unmarshal (marshal ord s) []) s.
+Proof. exact (marshal_unmarshal_same ord s). Qed.
+Print Assumptions marshal_unmarshal_id.
+
+(* SnapshotSave then LastStateRaw / OfflineState, from every directory state (with or without a previous snapshot,
+   any backups, any retention): the saved stream is the newest snapshot and reads back as the same pinset *)
+Theorem snapshot_offline_id keep ord s (d : dir snapshot) : order_oracle ord -> keys_nodup s ->
+  last_state_raw (snapshot_save keep (marshal ord s) d) = Some (marshal ord s) /\
+  same_pinset (offline_state (snapshot_save keep (marshal ord s) d) []) s.
+Proof. exact (fun Ho Hn => conj (last_state_after_save keep (marshal ord s) d) (snapshot_offline_same keep ord s d Ho Hn)). Qed.
+Print Assumptions snapshot_offline_id.
+
+(* saving over data that holds a snapshot rotates it into old.0 first; otherwise no backup is touched *)
+Theorem snapshot_save_keeps_previous_snapshot {S} keep (payload : S) m (s : S) o (d : dir S) : 1 <= keep ->
+  olds (snapshot_save keep payload (mk_dir (Some (m, Some s)) o)) 0 = Some (m, Some s) /\
+  (last_state_raw d = None -> olds (snapshot_save keep payload d) = olds d).
+Proof. exact (fun Hk => conj (snapshot_save_keeps_previous keep payload m s o Hk) (snapshot_save_no_previous keep payload d)). Qed.
+Print Assumptions snapshot_save_keeps_previous_snapshot.
+
+(* export then import is NOT the identity for every pinset: a pin with origins is exported but its line does not decode (S19) *)
+Theorem export_import_id_refuted :
+  exists ord s, order_oracle ord /\ keys_nodup s /\ import_lines (export ord s) [] = None.
+Proof.
+  exists (fun x => x), [(1, (1, 1))]%N. split; [intros s; apply Permutation_refl|]. split; [repeat constructor; simpl; tauto|reflexivity].
+Qed.
+Print Assumptions export_import_id_refuted.
+
+(* under the guard that no pin carries origins, for every pinset and every listing order *)
+Theorem export_import_id_partial ord s : order_oracle ord -> keys_nodup s -> no_origins s ->
+  exists s', import_lines (export ord s) [] = Some s' /\ same_pinset s' s.
+Proof. exact (export_import_same ord s). Qed.
+Print Assumptions export_import_id_partial.
+
+(* raft state manager: exporting from any data directory and importing into ANY other one (whatever it held, any
+   backups, any retention) succeeds and leaves exactly the exported pinset; what the destination held before is its
+   newest backup *)
+Theorem raft_export_import_id_partial keep ord1 ord2 (dsrc ddst : dir snapshot) :
+  order_oracle ord1 -> order_oracle ord2 -> no_origins (offline_state dsrc []) ->
+  exists d', raft_import keep ord2 (raft_export ord1 dsrc) ddst = (d', ImpOk) /\
+             same_pinset (offline_state d' []) (offline_state dsrc []).
+Proof. exact (raft_export_import keep ord1 ord2 dsrc ddst). Qed.
+Print Assumptions raft_export_import_id_partial.
+
+Theorem raft_import_previous_is_newest_backup keep ord ls m (sn : snapshot) o : 1 <= keep ->
+  olds (fst (raft_import keep ord ls (mk_dir (Some (m, Some sn)) o))) 0 = Some (m, Some sn).
+Proof. exact (raft_import_keeps_previous keep ord ls m sn o). Qed.
+Print Assumptions raft_import_previous_is_newest_backup.
+
+(* a stream that does not import leaves the destination empty (the Clean has happened), not half-imported *)
+Theorem raft_import_failure_leaves_empty keep ord ls (d : dir snapshot) : import_lines ls [] = None ->
+  raft_import keep ord ls d = (cleanup keep d, ImpErr) /\ offline_state (cleanup keep d) [] = [].
+Proof. exact (raft_import_failure keep ord ls d). Qed.
+Print Assumptions raft_import_failure_leaves_empty.
+
+(* crdt state manager: additionally the empty pinset does not survive the trip (Commit of an empty batch crashes) *)
+Theorem crdt_export_import_id_refuted :
+  exists ord s0, order_oracle ord /\ crdt_import (export ord []) s0 = ([], ImpCrash).
+Proof. exists (fun x => x), []. split; [intros s; apply Permutation_refl|reflexivity]. Qed.
+Print Assumptions crdt_export_import_id_refuted.
+
+Theorem crdt_export_import_id_partial ord s s0 : order_oracle ord -> keys_nodup s -> no_origins s -> s <> [] ->
+  exists s', crdt_import (export ord s) s0 = (s', ImpOk) /\ same_pinset s' s.
+Proof. exact (crdt_export_import ord s s0). Qed.
+Print Assumptions crdt_export_import_id_partial.
+
+(* non-vacuity of the guards *)
+Example pinset_example :
+  let s := [(3, (1, 0)); (5, (2, 0))]%N in
+  keys_nodup s /\ no_origins s /\ s <> [] /\ import_lines (export (@rev entry) s) [] = Some [(3, (1, 0)); (5, (2, 0))]%N.
+Proof. repeat split; try discriminate. repeat constructor; simpl; intuition discriminate. Qed.
